@@ -64,7 +64,7 @@ def make_tree(root, spec):
             try: VD[v](p)
             except OSError: pass
         st = os.lstat(p)
-        if stat.S_ISREG(st.st_mode): prev = p
+        if not stat.S_ISDIR(st.st_mode) and not stat.S_ISLNK(st.st_mode): prev = p          # a following 'hard' entry is another name of this file, fifo, socket or device node
     os.utime(root, (1600000000, 1600000000))
     # every entry (also nested ones and hard links) gets a fixed mtime unless a time variant set one; then everything is read once so that the
     # host's relatime handling does not change atime between the two builds of the reproducibility check
@@ -189,8 +189,8 @@ def dbg_script(root, ref):
         cmds.append('cd %s' % (os.path.dirname(p) or '/'))
         bn = os.path.basename(p)
         if e['type'] == stat.S_IFDIR: cmds.append('mkdir %s' % bn)
+        elif e['type'] not in (stat.S_IFLNK,) and st.st_ino in done_ino: cmds.append('ln %s %s' % (done_ino[st.st_ino], p)); continue      # another name of a file / fifo / device node made earlier
         elif e['type'] == stat.S_IFREG:
-            if st.st_ino in done_ino: cmds.append('ln %s %s' % (done_ino[st.st_ino], p)); continue
             cmds.append('write %s %s' % (src, bn)); done_ino[st.st_ino] = p
         elif e['type'] == stat.S_IFLNK: cmds.append('symlink %s %s' % (bn, e['target']))
         elif e['type'] == stat.S_IFCHR: cmds.append('mknod %s c %d %d' % (bn, e['rdev'][0], e['rdev'][1]))
@@ -198,6 +198,7 @@ def dbg_script(root, ref):
         elif e['type'] == stat.S_IFBLK: cmds.append('mknod %s b %d %d' % (bn, e['rdev'][0], e['rdev'][1]))
         elif e['type'] == stat.S_IFIFO: cmds.append('mknod %s p' % bn)
         else: continue
+        if e['type'] not in (stat.S_IFREG, stat.S_IFDIR, stat.S_IFLNK): done_ino[st.st_ino] = p
         if e['type'] != stat.S_IFREG:
             cmds += ['sif %s mode 0%o' % (p, e['type'] | e['mode'])]
         cmds += ['sif %s uid %d' % (p, e['uid']), 'sif %s gid %d' % (p, e['gid']), 'sif %s mtime @%d' % (p, e['mtime'])]
@@ -205,7 +206,7 @@ def dbg_script(root, ref):
         for k, v in e.get('xattrs', {}).items(): cmds.append('ea_set %s %s %s' % (p, k, v))
     # hard-linked files: debugfs ln does not touch the link count
     for p, e in ref.items():
-        if 'linkgroup' in e and e['type'] == stat.S_IFREG: cmds.append('sif %s links_count %d' % (p, e['nlink']))
+        if 'linkgroup' in e and e['type'] not in (stat.S_IFDIR, stat.S_IFLNK): cmds.append('sif %s links_count %d' % (p, e['nlink']))
     return cmds
 
 ENV = None
